@@ -12,6 +12,9 @@ pub struct Cfg {
     pub crlf: bool,
     /// every line break is drawn separately from LF / CRLF, with occasional empty lines (so CRLF meets LF)
     pub mixed_eol: bool,
+    /// `class C;` in front of some class definitions (only where the expectations do not depend on which of the
+    /// two statements "the declaration" is: outline and hover)
+    pub forward_decls: bool,
     pub non_ascii: bool,
     pub dead_use: bool,
     pub multiclass_args_hints: bool,
@@ -30,6 +33,7 @@ impl Cfg {
             docs: rng.chance(2, 3),
             crlf: rng.chance(1, 6),
             mixed_eol: false,
+            forward_decls: false,
             non_ascii: rng.chance(1, 3),
             dead_use: false,
             multiclass_args_hints: true,
